@@ -359,8 +359,10 @@ def explore_cfg(arg):
     st = explore.Stats()
     found = {}
     stack = [[]]
+    import time as _rt
+    t_end = _rt.time() + cfg.get('budget_s', 900)
     while stack:
-        if cap and st.executions >= cap:
+        if (cap and st.executions >= cap) or _rt.time() > t_end:
             st.capped = True
             break
         p = stack.pop()
